@@ -44,3 +44,25 @@ Print Assumptions C03_tables_agree.
 Theorem C03_method_agrees : forall m, In m standard_methods -> method_ok m = true.
 Proof. exact method_agrees. Qed.
 Print Assumptions C03_method_agrees.
+
+(* ---- the two responders themselves, from their statement-level translation (Gen/Src_allowhandlers.v, re-translated from echo.go
+   and router.go on every run): the 405 answer sets Allow to exactly the value the router left in the context (a non-empty
+   string; otherwise no Allow) and is ErrMethodNotAllowed; the automatic OPTIONS answer adds exactly the Allow value it was built
+   with and answers 204 through NoContent *)
+From Coq Require Import ZArith String.
+From Echo Require Import Base.GoLite Gen.Src_allowhandlers Router.AllowHandlersSrc.
+Theorem C03_source_method_not_allowed : forall (sym : String.string -> Z) (allow ok : Z),
+  let '(st', ret) := GoLite.run sym src_method_not_allowed_handler_results src_method_not_allowed_handler
+                       {| GoLite.locals := [("c"%string, 0%Z)]; GoLite.fields := []; GoLite.events := []; GoLite.inputs := [[allow; ok]] |} in
+  ret = [sym "ErrMethodNotAllowed"%string] /\
+  GoLite.events st' = ("c.Get(ContextKeyHeaderAllow).(string)"%string, []) ::
+               (if (negb (ok =? 0) && negb (allow =? sym """"""%string))%Z then [("c.Response().Header().Set"%string, [sym "HeaderAllow"%string; allow])] else []).
+Proof. exact AllowHandlersSrc.C03_source_method_not_allowed. Qed.
+Print Assumptions C03_source_method_not_allowed.
+Theorem C03_source_options_responder : forall (sym : String.string -> Z),
+  let '(st', ret) := GoLite.run sym src_options_method_handler_results src_options_method_handler
+                       {| GoLite.locals := [("c"%string, 0%Z)]; GoLite.fields := []; GoLite.events := []; GoLite.inputs := [] |} in
+  ret = [sym "result of c.NoContent"%string] /\
+  GoLite.events st' = [("c.Response().Header().Add"%string, [sym "HeaderAllow"%string; sym "allowMethods"%string]); ("c.NoContent"%string, [sym "http.StatusNoContent"%string])].
+Proof. exact AllowHandlersSrc.C03_source_options_responder. Qed.
+Print Assumptions C03_source_options_responder.
